@@ -267,6 +267,15 @@ def confirm(mod, tier, cand, chunk_cases_of, n):
     b = _replay_subprocess(mod.PROPERTY, path)
     if a and b and a == b:
         return 'confirmed-with-history', path
+    # the derived single case does not reproduce, alone or after the cases before it: the history may lie INSIDE the enumerated case that
+    # produced it (one case explores many inputs with one parsed value): replay that whole case after its chunk prefix
+    block = chunk_cases_of(cidx)
+    if pos < len(block) and block[pos] != case:
+        path = write_replay(mod.PROPERTY, n, tier, block[pos], errs, obs, history)
+        a = _replay_subprocess(mod.PROPERTY, path)
+        b = _replay_subprocess(mod.PROPERTY, path)
+        if a and b and a == b:
+            return 'confirmed-enclosing-case', path
     return 'unconfirmed', path
 
 
